@@ -2,6 +2,7 @@ import KcpVerif.Model.Kcp
 import KcpVerif.Lemmas.KcpLive
 import KcpVerif.Lemmas.KcpProbe
 import KcpVerif.Lemmas.SysDrainSnd
+import KcpVerif.Lemmas.SysDrainProbe4
 /-! C03 — a stalled reader throttles the sender and transfer resumes afterwards. -/
 namespace KcpVerif.Props
 open KcpVerif KcpVerif.Gen KcpVerif.Kcp KcpVerif.Live
@@ -437,5 +438,106 @@ def C03_resume_full : Prop :=
   ∀ (p : SysC.Par) (s : Sys.State) (gab gba : SysC.GLink), SysC.Cons p s gab gba →
     ∃ T : Nat, ∀ evs : List Sys.Ev, (∀ ev ∈ evs, SysC.isSend ev = false) →
       s.now + T ≤ (Sys.run s evs).now → (Sys.run s evs).A.waitSnd = 0
+
+/-! ### Tier 2, zero-window probing in the closed system (repaired model, arbitrary histories)
+
+One probe round as a chain of five phases with deadlines (Lemmas/SysDrainProbe*.lean), each preserved
+or advanced by every event of the fair system, from ANY consistent state — whatever was lost before:
+
+* `Z0` — A's `rmt_wnd` is 0 and the probe timer is not armed: A's next full flush (by `T0`) arms it
+  `IKCP_PROBE_INIT` ahead;
+* `ZA` — armed for `P`: flushes before `P` leave it alone, the first flush at or after `P` (by
+  `T1 ≥ P + interval_A`) writes a WASK and re-arms with the backed-off wait (≤ `IKCP_PROBE_LIMIT`);
+* `ZW` — the WASK is on its way, at B by `T1 + D`; B's `Input` sets ASK_TELL;
+* `ZT` — B owes the answer: its next flush of either kind (by `T1 + D + interval_B`) writes a WINS, and
+  every frame of that flush carries the window computed at that flush;
+* `ZR` — that datagram is on its way, at A by `T1 + D + interval_B + D`; A takes over its window.
+
+Run hypothesis (`SysC.ProbeHyp`, a check on single states): fewer than 2^30 segments, and B's receive
+queue is not full and `rcv_wnd < 65536` (else the answer is again 0 — correctly — and the round
+repeats).  `PInv` (an invariant of every event): an armed timer is at most `IKCP_PROBE_LIMIT` = 120 s
+ahead of the clock and at most one interval behind A's next flush. -/
+
+open KcpVerif.Sys KcpVerif.SysC in
+/-- **the flush of a sender with a closed remote window** at time `t`: arms the probe timer, leaves it
+alone before its time, or writes a WASK frame -/
+theorem C03_closed_probe_flush (K : Kcp) (t IA T0 T1 : Nat) (h0 : K.rmt_wnd = 0) (hiv : K.interval.toNat = IA)
+    (hz : (K.probe_wait = 0 ∧ t ≤ T0 ∧ T0 + IKCP_PROBE_INIT + IA ≤ T1 ∧ T1 < t + IKCP_PROBE_INIT + 2 ^ 31) ∨
+      (K.probe_wait ≠ 0 ∧ t ≤ T1 ∧ ∃ P, K.ts_probe = clk P ∧ P + IA ≤ T1 ∧ T1 < P + 2 ^ 31)) :
+    ((flush K true (clk t)).k.probe_wait ≠ 0 ∧ t + (flush K true (clk t)).interval.toNat ≤ T1 ∧
+      ∃ P, (flush K true (clk t)).k.ts_probe = clk P ∧ P + IA ≤ T1 ∧ T1 < P + 2 ^ 31) ∨
+    (∃ fr ∈ SysW.flushFrs K true (clk t), fr.cmd.toNat = IKCP_CMD_WASK) :=
+  zA_flush K t IA T0 T1 h0 hiv hz
+
+open KcpVerif.Sys KcpVerif.SysC in
+/-- **the phases on B's side and on the way back** (`ZW`, `ZT`, `ZR`): every event keeps the phase, moves
+to a later one within its deadline, or opens A's remote window -/
+theorem C03_closed_probe_answer {p : Par} {s : State} {gab gba : GLink} (h : Cons p s gab gba) (hnw : NoWrap p.base s)
+    (T2 T3 T4 IB : Nat) (ht : Tm IB s) (hT3 : T2 + IB ≤ T3) (hT4 : T3 + s.D ≤ T4) (hQ : QB s) (ev : Ev)
+    (hQ' : QB (Sys.step s ev)) (hp' : (Sys.step s ev).panic = false) (hz : ZW T2 s ∨ ZT T3 s ∨ ZR T4 s) :
+    (ZW T2 (Sys.step s ev) ∨ ZT T3 (Sys.step s ev) ∨ ZR T4 (Sys.step s ev)) ∨ (Sys.step s ev).A.rmt_wnd ≠ 0 :=
+  zB_step h hnw T2 T3 T4 IB ht hT3 hT4 hQ ev hQ' hp' hz
+
+open KcpVerif.Sys KcpVerif.SysC in
+/-- **the probe timer is bounded in reachable states**: `PInv` is kept by every event -/
+theorem C03_closed_probe_timer_bounded {p : Par} {s : State} {gab gba : GLink} (h : Cons p s gab gba)
+    (hnw : NoWrap p.base s) (IA : Nat) (hIA : IA < 2 ^ 30) (hta : TmA IA s) (hpi : PInv IA s) (ev : Ev) :
+    PInv IA (Sys.step s ev) :=
+  pinv_step h hnw IA hIA hta hpi ev
+
+open KcpVerif.Sys KcpVerif.SysC in
+/-- **one probe round, bound by phase**: from a consistent state in phase `Z0` or `ZA`, in every run
+whose clock passes `T1 + D + interval_B + D`, A's `rmt_wnd` is non-zero in some state of the run -/
+theorem C03_probe_round {p : Par} {IA IB : Nat} {s : State} (hi : Inv p IA IB s) (T0 T1 : Nat)
+    (hz : Z0 IA T0 T1 s ∨ ZA IA T1 s) (evs : List Ev) (hr : RunP (ProbeHyp p) s evs)
+    (hnow : T1 + s.D + IB + s.D < (Sys.run s evs).now) :
+    ∃ a b, evs = a ++ b ∧ (Sys.run s a).A.rmt_wnd ≠ 0 :=
+  probe_round hi T0 T1 hz evs hr hnow
+
+open KcpVerif.Sys KcpVerif.SysC in
+/-- **zero-window probing, with the 120 s cap**: two fresh endpoints, ANY history `pre` of writes, reads,
+events and network faults (every WASK and WINS of the past may have been lost); from the state it
+leaves, over fair links, in every run whose clock advances by more than
+`IKCP_PROBE_LIMIT + 2·interval_A + D + interval_B + D` ms there is a state in which A's `rmt_wnd` is
+non-zero — the sender has learned a window that B computed when its receive queue was not full. -/
+theorem C03_zero_window_probe_bound (A B : Kcp) (D t0 : Nat) (ndA ndB : Bool) (hinit : ConsInit A B)
+    (hpw : A.probe_wait = 0) (hIA : A.interval.toNat < 2 ^ 29) (pre : List NetEv)
+    (hpre : NetNoWrap A.snd_nxt (Sys.init A B D t0 ndA ndB) pre) (evs : List Ev)
+    (hr : RunP (ProbeHyp ⟨A.snd_nxt, A.conv, 0, 0, 0⟩) (netRun (Sys.init A B D t0 ndA ndB) pre) evs)
+    (hnow : (netRun (Sys.init A B D t0 ndA ndB) pre).now + IKCP_PROBE_LIMIT + 2 * A.interval.toNat +
+      (netRun (Sys.init A B D t0 ndA ndB) pre).D + B.interval.toNat + (netRun (Sys.init A B D t0 ndA ndB) pre).D <
+      (Sys.run (netRun (Sys.init A B D t0 ndA ndB) pre) evs).now) :
+    ∃ a b, evs = a ++ b ∧ (Sys.run (netRun (Sys.init A B D t0 ndA ndB) pre) a).A.rmt_wnd ≠ 0 := by
+  obtain ⟨hi, hpi⟩ := inv_pinv_netRun (by omega) pre _ (inv_init A B D t0 ndA ndB hinit)
+    (pinv_init A B D t0 ndA ndB hpw) hpre
+  exact probe_opens hi hpi hIA evs hr hnow
+
+/-! non-vacuity of `C03_probe_round` (and of the invariants behind `C03_zero_window_probe_bound`): B has
+a receive window of one segment (`wedgeB`); A writes two messages and flushes, B takes the first into
+its queue (now full) and the second into the reorder buffer and acknowledges both with `wnd = 0`; A
+processes the ACKs (`rmt_wnd = 0`, its ACK-triggered flush arms the probe timer: `ts_probe = 1500`); the
+reader returns and reads both; the WINS that B's `Recv` schedules is flushed and LOST (`shuffle [] []`).
+In the state this leaves: `rmt_wnd = 0`, phase `ZA` with `P = 1500`, `T1 = 1510`.  Then 53 rounds of
+"10 ticks, flushes, deliveries, read": the run hypotheses hold and the clock reaches 1530 > 1520. -/
+
+def c03ProbePre : List SysC.NetEv :=
+  [.fair (.send [1]), .fair (.send [2]), .fair .flushA, .fair .dlvB, .fair .flushB, .fair .dlvA,
+   .fair .read, .fair .read, .fair .flushB, .shuffle [] []]
+def c03ProbeRound : List Sys.Ev := List.replicate 10 .tick ++ [.flushA, .dlvB, .flushB, .dlvA, .read]
+def c03ProbeEvs : List Sys.Ev := (List.replicate 53 c03ProbeRound).flatten
+
+set_option maxRecDepth 1000000 in
+example : SysC.ConsInit SysC.wedgeA SysC.wedgeB ∧ SysC.wedgeA.probe_wait = 0 ∧
+    SysC.NetNoWrap SysC.wedgeA.snd_nxt (Sys.init SysC.wedgeA SysC.wedgeB 0 1000) c03ProbePre ∧
+    (SysC.netRun (Sys.init SysC.wedgeA SysC.wedgeB 0 1000) c03ProbePre).A.rmt_wnd = 0 ∧
+    (SysC.netRun (Sys.init SysC.wedgeA SysC.wedgeB 0 1000) c03ProbePre).ba = [] ∧
+    (SysC.netRun (Sys.init SysC.wedgeA SysC.wedgeB 0 1000) c03ProbePre).got = [1, 2] ∧
+    SysC.ZA 10 1510 (SysC.netRun (Sys.init SysC.wedgeA SysC.wedgeB 0 1000) c03ProbePre) ∧
+    1510 + 0 + 10 + 0 < (Sys.run (SysC.netRun (Sys.init SysC.wedgeA SysC.wedgeB 0 1000) c03ProbePre) c03ProbeEvs).now :=
+  ⟨by decide, by decide, by decide, by decide, by decide, by decide,
+   ⟨by decide, by decide, by decide, 1500, by decide, by decide, by decide⟩, by decide⟩
+set_option maxRecDepth 1000000 in
+example : SysC.RunP (SysC.ProbeHyp ⟨SysC.wedgeA.snd_nxt, SysC.wedgeA.conv, 0, 0, 0⟩)
+    (SysC.netRun (Sys.init SysC.wedgeA SysC.wedgeB 0 1000) c03ProbePre) c03ProbeEvs := by decide
 
 end KcpVerif.Props
